@@ -591,9 +591,8 @@ inline constexpr void Conversion<Unit::ElectricCharge, Unit::ElectricCharge::Nan
 }
 
 template <typename NumericType>
-inline const std::map<Unit::ElectricCharge,
-                      std::function<void(NumericType* values, const std::size_t size)>>
-    MapOfConversionsFromStandard<Unit::ElectricCharge, NumericType>{
+inline constexpr auto MapOfConversionsFromStandard<Unit::ElectricCharge, NumericType>{
+  MakeConversionTable<Unit::ElectricCharge, NumericType>({
       {Unit::ElectricCharge::Coulomb,
        Conversions<Unit::ElectricCharge, Unit::ElectricCharge::Coulomb>::FromStandard<NumericType>},
       {Unit::ElectricCharge::Kilocoulomb,
@@ -668,12 +667,12 @@ inline const std::map<Unit::ElectricCharge,
       {Unit::ElectricCharge::NanoampereHour,
        Conversions<Unit::ElectricCharge, Unit::ElectricCharge::NanoampereHour>::
            FromStandard<NumericType>                      },
+})
 };
 
 template <typename NumericType>
-inline const std::map<Unit::ElectricCharge,
-                      std::function<void(NumericType* const values, const std::size_t size)>>
-    MapOfConversionsToStandard<Unit::ElectricCharge, NumericType>{
+inline constexpr auto MapOfConversionsToStandard<Unit::ElectricCharge, NumericType>{
+  MakeConversionTable<Unit::ElectricCharge, NumericType>({
       {Unit::ElectricCharge::Coulomb,
        Conversions<Unit::ElectricCharge, Unit::ElectricCharge::Coulomb>::ToStandard<NumericType>},
       {Unit::ElectricCharge::Kilocoulomb,
@@ -748,6 +747,7 @@ inline const std::map<Unit::ElectricCharge,
       {Unit::ElectricCharge::NanoampereHour,
        Conversions<Unit::ElectricCharge, Unit::ElectricCharge::NanoampereHour>::
            ToStandard<NumericType>                      },
+})
 };
 
 }  // namespace Internal
